@@ -48,17 +48,19 @@ type storeState struct {
 	auto   bool
 	shadow *fileShadow
 
-	tick     chan time.Time
-	yield    *gate
-	resume   *gate
-	feed     *gate // race build: wakes the goroutine that sends ticks
-	feedStop bool
-	busy     bool // flusher is handling a tick
-	parked   bool // flusher waits for the exclusive lock
-	lazy     bool // ... the lock is free again but the flusher has not been given the CPU yet (Knobs.LazyWake)
-	pending  bool // a tick arrived while busy (ticker channel capacity 1)
-	exited   bool // flusher goroutine was told to stop / store closed
-	killed   bool
+	tick       chan time.Time
+	yield      *gate
+	resume     *gate
+	feed       *gate // race build: wakes the goroutine that sends ticks
+	feedStop   bool
+	busy       bool // flusher is handling a tick
+	parked     bool // flusher waits for the exclusive lock
+	lazy       bool // ... the lock is free again but the flusher has not been given the CPU yet (Knobs.LazyWake)
+	preempted  bool // parked although the lock was free: it lost the CPU just before calling Lock(), readers may still enter
+	exclInTick int  // exclusive lock requests of the flusher since its last wake-up
+	pending    bool // a tick arrived while busy (ticker channel capacity 1)
+	exited     bool // flusher goroutine was told to stop / store closed
+	killed     bool
 
 	openedAt  int64
 	ticksSeen int64
@@ -137,6 +139,8 @@ type World struct {
 	// O-evict: cache events of store caches, pages set while clean although the
 	// data file does not hold their content, and the events at which such a
 	// page was still exposed when the cache next had to make room
+	exclWants     uint64
+	pageWrites    int
 	lruEv         int64
 	unsaved       map[*storage.LRUCache]map[uint64]unsavedPage
 	PressureHints []int64
@@ -483,6 +487,7 @@ func (w *World) hookFlusher(fs *storage.VerifStore, phase int) {
 	}
 	w.h(2, uint64(st.id), uint64(phase))
 	if phase == storage.VerifFlusherWake {
+		st.exclInTick = 0
 		st.busy = true
 		w.count("flusher_wake")
 		return
@@ -579,7 +584,7 @@ func (w *World) hookLock(fs *storage.VerifStore, op int) {
 	if w.cur == nil {
 		w.lastStore = st
 	}
-	if w.cur == nil && (op == storage.VerifLockWantShared || op == storage.VerifLockWantExcl) {
+	if w.cur == nil && (op == storage.VerifLockWantShared || op == storage.VerifLockWantExcl) && !st.preempted {
 		// the waiting flusher is first in line for the lock
 		w.settle(st)
 	}
@@ -589,7 +594,7 @@ func (w *World) hookLock(fs *storage.VerifStore, op int) {
 			w.abort(w.Prop, "O-live", "shared lock requested while the exclusive lock is held: deadlock", map[string]string{"kind": "deadlock-shared-under-excl"})
 			return
 		}
-		if st.parked && st.readers > 0 {
+		if st.parked && !st.preempted && st.readers > 0 {
 			w.abort(w.Prop, "O-live", "nested shared lock while a flush waits for the exclusive lock: RWMutex deadlock", map[string]string{"kind": "deadlock-nested-shared"})
 			return
 		}
@@ -614,6 +619,25 @@ func (w *World) hookLock(fs *storage.VerifStore, op int) {
 		}
 		w.yieldPoint()
 	case storage.VerifLockWantExcl:
+		if w.cur == st && st.readers == 0 && !st.writer && w.Knobs.LazyWake {
+			// the lock is free, but a goroutine can lose the CPU just before it
+			// calls Lock(): now and then the flusher stays behind here while the
+			// session runs on (it has not announced itself, so readers get in)
+			w.exclWants++
+			st.exclInTick++
+			// a second exclusive section inside one tick (a flush that lets go of
+			// the lock half-way) is the interesting place: always stay behind there
+			if st.exclInTick >= 2 || (w.exclWants*0x9e3779b97f4a7c15)>>61 == 0 {
+				if st.exclInTick >= 2 {
+					w.count("flusher_preempted_between_two_exclusive_sections")
+				}
+				st.parked, st.lazy, st.preempted = true, true, true
+				w.count("flusher_preempted_before_lock")
+				st.yield.signal()
+				st.resume.wait()
+				st.preempted = false
+			}
+		}
 		if st.readers > 0 || st.writer {
 			if w.cur == st {
 				st.parked = true
@@ -787,6 +811,16 @@ func (w *World) hookPageWrite(fs *storage.VerifStore, n *storage.VerifNode, b []
 		return
 	}
 	w.count("page_write")
+	if w.isMain && w.Knobs.SlowWriteAt > 0 {
+		w.pageWrites++
+		if w.pageWrites == w.Knobs.SlowWriteAt {
+			// a stalled disk: this one write takes 60 ms of REAL time. mkdb
+			// has no clock seam but the ticker; code that does not read the wall
+			// clock cannot tell, code that does (a time-boxed flush, say) can
+			time.Sleep(60 * time.Millisecond)
+			w.count("slow_page_write")
+		}
+	}
 	off := n.VerifOffset()
 	cp := append([]byte(nil), b...)
 	st.shadow.writeAt(int(off), cp)
